@@ -73,9 +73,20 @@ pub fn setup(rng: &mut Rng, o: &CaseOpts, id: u64) -> Vec<String> {
         for _ in 0..1 + rng.below(4) { let d = if rng.bool() { baddr(rng) } else { rng.u16() }; line.push(' '); line.push_str(&cell(d, init_mask(rng))); }
         v.push(line);
     }
+    // one case in eight (one in three in strict mode) loads an object file with a block that ends exactly at the top of memory
+    // or wraps (only the object formats can express it): strict mode consults the table of loaded blocks for every data
+    // access; some registers then point into that block
+    let mut hi_block: Option<u16> = None;
+    if rng.chance(1, if o.strict { 3 } else { 8 }) {
+        let start = *rng.pick(&[0xFFF8u16, 0xFFFC, 0xFFFF, 0xFFF0]);
+        let len = match rng.below(3) { 0 => 0x10000 - start as u32, 1 => 0x10000 - start as u32 + 3, _ => 1 + rng.below(4) as u32 };
+        let cells: Vec<String> = (0..len).map(|_| if rng.chance(1, 3) { "_".to_string() } else { hex16(rng.u16()) }).collect();
+        v.push(format!("sim loadraw {}:{}", hex16(start), cells.join(",")));
+        hi_block = Some(start);
+    }
     // registers
     for r in 0..8 {
-        let d = if r == 6 { *rng.pick(&[0x3000u16, 0x2FF0, 0xFE00, 0x0000, 0x0001, 0x3001, 0xF000, 0x2FFF, 0xFFFD, 0xFFFF, 0xFFFA, 0xFFF9]) } else if rng.chance(2, 3) { baddr(rng) } else { rng.u16() };
+        let d = if let (Some(st), true) = (hi_block, (1..=3).contains(&r) && rng.bool()) { st.wrapping_add(rng.below(6) as u16) } else if r == 6 { *rng.pick(&[0x3000u16, 0x2FF0, 0xFE00, 0x0000, 0x0001, 0x3001, 0xF000, 0x2FFF, 0xFFFD, 0xFFFF, 0xFFFA, 0xFFF9]) } else if rng.chance(2, 3) { baddr(rng) } else { rng.u16() };
         let i = if o.strict || o.prof == Prof::Wild { match rng.below(6) { 0 => 0, 1 => rng.u16(), _ => 0xFFFF } } else if rng.chance(1, 8) { 0 } else { 0xFFFF };
         v.push(format!("sim rawreg {} {} {}", r, hex16(d), hex16(i)));
     }
@@ -83,9 +94,9 @@ pub fn setup(rng: &mut Rng, o: &CaseOpts, id: u64) -> Vec<String> {
     // PSR: privilege / priority / cc  (through the MMIO port: masked + CC-normalised)
     let psr = (if user { 0x8000 } else { 0 }) | ((rng.below(8) as u16) << 8) | *rng.pick(&[1u16, 2, 4, 0, 7, 3]);
     v.push(format!("sim hostwrite fffc {} ffff 1 0 0 0", hex16(psr)));
-    // saved SP
+    // saved SP (one case in six keeps the one a new machine starts with)
     let ssp = *rng.pick(&[0x3000u16, 0x2FF0, 0x2FFF, 0x0002, 0x0000, 0xFE00, 0xFE02, 0x1000, 0x0201]);
-    v.push(format!("sim hostwrite fff0 {} ffff 1 0 0 0", hex16(ssp)));
+    if !rng.chance(1, 6) { v.push(format!("sim hostwrite fff0 {} ffff 1 0 0 0", hex16(ssp))); }
     // interrupts
     if rng.chance(1, 3) {
         let mut toks = vec![];
